@@ -9,7 +9,7 @@
    Part 4  match against the documented meaning. *)
 From Coq Require Import String.
 Require Import OV.Base.Bytes OV.Base.Py OV.Base.PyInt OV.Base.Str OV.Base.Regex OV.Base.PyFloat.
-Require Import OV.Gen.C18_SpecsMatcher OV.Model.C18.
+Require Import OV.Gen.Unicode OV.Gen.C18_SpecsMatcher OV.Model.C18.
 Open Scope N_scope.
 
 Arguments is_pp_ws : simpl never.
@@ -1517,3 +1517,90 @@ Proof. vm_compute. split; reflexivity. Qed.
 (* malformed range: fewer than four words after <range-in> falls to '<' + 'range-in>' *)
 Example ex_range_fallback : parse (lit "<range-in> [10 20]") = Some [lit "<"; lit "range-in>"].
 Proof. vm_compute. reflexivity. Qed.
+
+(* ================================================================ the class \S and str.isspace *)
+
+(* complement of a sorted list of ranges inside [lo, mx] *)
+Fixpoint compl_from (lo : N) (rs : cset) (mx : N) : cset :=
+  match rs with
+  | [] => if lo <=? mx then [(lo, mx)] else []
+  | (a, b) :: t => (if lo <? a then [(lo, a - 1)] else []) ++ compl_from (b + 1) t mx
+  end.
+Fixpoint sorted_from (lo : N) (rs : cset) : bool :=
+  match rs with
+  | [] => true
+  | (a, b) :: t => (lo <=? a) && (a <=? b) && sorted_from (b + 1) t
+  end.
+
+Lemma cmem_cons c a b t : cmem c ((a, b) :: t) = ((a <=? c) && (c <=? b)) || cmem c t.
+Proof. reflexivity. Qed.
+
+Lemma cmem_app c x y : cmem c (x ++ y) = cmem c x || cmem c y.
+Proof.
+  induction x as [|[a b] x IH]; [reflexivity|]. cbn [app]. rewrite !cmem_cons, IH. apply orb_assoc.
+Qed.
+
+Lemma sorted_cons lo a b t : sorted_from lo ((a, b) :: t) = true -> lo <= a /\ a <= b /\ sorted_from (b + 1) t = true.
+Proof.
+  cbn [sorted_from]. intros H. apply andb_true_iff in H. destruct H as [H Ht].
+  apply andb_true_iff in H. destruct H as [H1 H2]. repeat split; [lia|lia|exact Ht].
+Qed.
+
+Lemma cmem_below rs : forall lo c, sorted_from lo rs = true -> c < lo -> cmem c rs = false.
+Proof.
+  induction rs as [|[a b] t IH]; intros lo c Hs Hc; [reflexivity|].
+  apply sorted_cons in Hs. destruct Hs as [H1 [H2 Ht]].
+  rewrite cmem_cons, (IH (b + 1) c Ht) by lia.
+  replace (a <=? c) with false by lia. reflexivity.
+Qed.
+
+Lemma compl_below rs : forall lo mx c, sorted_from lo rs = true -> c < lo -> cmem c (compl_from lo rs mx) = false.
+Proof.
+  induction rs as [|[a b] t IH]; intros lo mx c Hs Hc; cbn [compl_from].
+  - destruct (lo <=? mx); [|reflexivity]. rewrite cmem_cons. replace (lo <=? c) with false by lia. reflexivity.
+  - apply sorted_cons in Hs. destruct Hs as [H1 [H2 Ht]].
+    rewrite cmem_app, (IH (b + 1) mx c Ht) by lia.
+    destruct (lo <? a); [|reflexivity]. rewrite cmem_cons. replace (lo <=? c) with false by lia. reflexivity.
+Qed.
+
+Lemma compl_from_spec rs : forall lo mx c,
+  sorted_from lo rs = true -> lo <= c -> c <= mx -> cmem c (compl_from lo rs mx) = negb (cmem c rs).
+Proof.
+  induction rs as [|[a b] t IH]; intros lo mx c Hs L U; cbn [compl_from].
+  - replace (lo <=? mx) with true by lia. rewrite cmem_cons.
+    replace (lo <=? c) with true by lia. replace (c <=? mx) with true by lia. reflexivity.
+  - apply sorted_cons in Hs. destruct Hs as [H1 [H2 Ht]]. rewrite cmem_app, cmem_cons.
+    destruct (N.lt_ge_cases c a) as [Hca|Hca].
+    + replace (lo <? a) with true by lia. rewrite cmem_cons.
+      replace (lo <=? c) with true by lia. replace (c <=? a - 1) with true by lia.
+      replace (a <=? c) with false by lia. rewrite (cmem_below t (b + 1) c Ht) by lia. reflexivity.
+    + destruct (lo <? a) eqn:E.
+      2: change (cmem c []) with false.
+      1: rewrite cmem_cons; replace (c <=? a - 1) with false by lia; rewrite andb_false_r.
+      all: cbn [orb]; replace (a <=? c) with true by lia; cbn [andb].
+      all: destruct (N.le_gt_cases c b) as [Hcb|Hcb].
+      all: try (replace (c <=? b) with true by lia; cbn [orb negb]; apply compl_below; [exact Ht|lia]).
+      all: replace (c <=? b) with false by lia; cbn [orb]; apply IH; [exact Ht|lia|exact U].
+Qed.
+
+(* the generated class of Regex(r"\S+") is exactly the complement, within the code point
+   range, of the interpreter's str.isspace() table (Gen/Unicode.v): a word is a run of
+   non-whitespace characters in Python's sense *)
+Lemma gen_atom_cs_compl : atom_cs = compl_from 0 py_space 1114111 /\ sorted_from 0 py_space = true.
+Proof. vm_compute. split; reflexivity. Qed.
+
+Theorem atom_class_is_nonspace c : c <= 1114111 -> cmem c atom_cs = negb (is_space c).
+Proof.
+  intros H. destruct gen_atom_cs_compl as [-> Hs]. unfold is_space.
+  apply compl_from_spec; [exact Hs|lia|exact H].
+Qed.
+
+(* and the characters pyparsing skips are whitespace in that sense *)
+Theorem skipped_are_space c : is_pp_ws c = true -> is_space c = true.
+Proof.
+  intros H. assert (Hin : In c pp_white).
+  { unfold is_pp_ws in H. revert H. generalize pp_white. induction l as [|x l IH]; cbn; [discriminate|].
+    intros H. apply orb_true_iff in H. destruct H as [H|H]; [left; apply N.eqb_eq; exact H|right; auto]. }
+  assert (G : forallb is_space pp_white = true) by (vm_compute; reflexivity).
+  exact (forallb_In _ _ _ G Hin).
+Qed.
